@@ -3,13 +3,16 @@
 Sub-oracles (all tolerances are the solver's own (rtol, atol) times K = 10, DESIGN 2.4.1)
   finite         the returned tuple consists of finite numbers with 0 < v < 1, T > 0 (needed to form fluxes)
   flux           backward error of the junction conditions evaluated with the EOS object's own p, w:
-                   deflagration/hybrid: Newton correction (dT+, dT-) of the two flux equations at the
-                     returned (v+, v-) is below K (atol + rtol T)
+                   deflagration/hybrid: an exact solution of the two flux equations exists with
+                     |dT+-| <= K (atol + rtol T+-) and |dv+| <= K (atol + rtol v+) of the returned numbers
+                     (Newton correction with v- fixed; v+ is allowed to move inside its own tolerance
+                     because the solver's outer root is in v+ and the 2x2 system in (T+,T-) alone has
+                     condition number ~ 1/alpha for weak transitions)
                    detonation: the energy-flux residual, as a function of T- with v- eliminated by the
                      momentum equation, changes sign inside T-(1 +- K rtol) +- K atol, and the returned
                      v- lies in the image of that window under the junction relation
   c-plus         findHydroBoundaries: c1 = -w+ g+^2 v+, c2 = p+ + w+ g+^2 v+^2 from the same matching
-                 (relative 1e-11), T+/T- identical to findMatching
+                 (relative 1e-12 of the enthalpy scale), T+/T- identical to findMatching
   c-minus        the same constants formed on the minus side agree within the forward image of the
                  backward-error box
   vmid           velocityMid = -(v+ + v-)/2
@@ -48,10 +51,10 @@ K = 10.0
 TOLERANCES = {
     "K": K,
     "backward_error_T": "K*(atol + rtol*T) with the (rtol, atol) given to the solver",
-    "c_plus_rel": 1e-11,
+    "c_plus_rel": "1e-12 relative to |c1| resp. w+(1+g^2 v^2)+|p+| (p+ can be a cancelling difference of O(w) terms)",
     "vmid_abs": 1e-15,
-    "exact": "K*[(atol+rtol*vp)/|dvp/dTp| + rtol*Tn/|dTn'/dTp| + atol + rtol*Tp] along the reference family of "
-             "exact junctions; slopes by the reference's finite differences",
+    "exact": "dvp <= K*(atol+rtol*vp) + K*rtol*Tn/|dTn'/dvp|; dT+- <= |dT+-/dvp|*dvp + K*(atol+rtol*T) along the "
+             "reference family of exact junctions; slopes by the reference's finite differences",
     "ode_error_allowance": "K*rtol relative on the shock-front temperature (measured: max ratio in info.exact_ratio)",
 }
 ASSUMPTIONS = [
@@ -67,7 +70,7 @@ ASSUMPTIONS = [
 EXHAUSTIVE_SUBDOMAINS = []
 
 VCLASSES = ["vmin", "vmin+", "defl", "defl", "cb-", "cb+", "hyb", "hyb", "vJ-", "vJ-", "vJ+", "det", "det", "v099"]
-FAMILY_WEIGHTS = {"bag": 3, "template": 4, "twostep": 4, "cubic": 3, "traced": 2}
+FAMILY_WEIGHTS = {"bag": 3, "template": 4, "twostep": 4, "cubic": 3, "traced": 1}
 
 
 # ---------------------------------------------------------------------------------------------
@@ -250,7 +253,11 @@ def check_case(case) -> Verdict:
         v.label("template-fallback-taken")
     if solver == "general" and branch != "detonation" and not hyd.success:
         v.label("hybr-unconverged-flag")
-    cls = f"{base_cls}/{branch}/{case['vclass']}" + ("/fallback" if took_fallback else "")
+    vbucket = "vw<0.01" if vw < 0.01 else "vw<0.1" if vw < 0.1 else "vw>=0.1"
+    v.label(f"speed:{vbucket}")
+    cls = (f"{base_cls}/{branch}/{vbucket}" + ("/at-vMin" if case["vclass"] == "vmin" else "")
+           + ("/fallback" if took_fallback else "")
+           + ("/unconverged-flag" if (solver == "general" and branch != "detonation" and not hyd.success) else ""))
     v.info["matching"] = [vp, vm, Tp, Tm]
     v.checked("finite")
     if not (0.0 < vp < 1.0 and 0.0 < vm < 1.0 and Tp > 0.0 and Tm > 0.0):
@@ -266,17 +273,24 @@ def check_case(case) -> Verdict:
     r1, r2 = R.wall_residuals(eos, vp, vm, Tp, Tm)
     v.info["flux_residuals"] = [r1, r2]
     bTp, bTm = box(Tp, rtol, atol), box(Tm, rtol, atol)
+    flux_failed = False
     if branch == "detonation":
+        nviol = len(v.violations)
         check_detonation_flux(v, cls, eos, Tn, vw, vp, vm, Tp, Tm, rtol, atol)
+        flux_failed = len(v.violations) > nviol
     else:
-        dTp, dTm, cond = R.newton_correction(eos, vp, vm, Tp, Tm)
-        ratio = max(abs(dTp) / bTp, abs(dTm) / bTm)
-        v.info.update(newton=[dTp, dTm], cond=cond, flux_ratio=ratio)
+        ratio, tshift, (dTp, dTm), cond = R.junction_backward_error(
+            eos, vp, vm, Tp, Tm, K * (atol + rtol * vp), bTp, bTm)
+        n0 = R.newton_correction(eos, vp, vm, Tp, Tm)
+        v.info.update(newton_fixed_v=[n0[0], n0[1]], newton=[dTp, dTm], dvp_over_box=tshift, cond=cond,
+                      flux_ratio=ratio)
         if not ratio <= 1.0:
+            flux_failed = True
             v.fail("flux", cls,
-                   f"junction conditions violated: exact solution at the returned velocities is "
-                   f"(dT+, dT-) = ({dTp:.3e}, {dTm:.3e}) away, allowed ({bTp:.2e}, {bTm:.2e}); "
-                   f"relative flux mismatch energy {r1:.3e}, momentum {r2:.3e} (vw={vw:.6g})",
+                   f"junction conditions violated: no exact solution inside the tolerance box; nearest needs "
+                   f"(dT+, dT-) = ({dTp:.3e}, {dTm:.3e}) with v+ moved to the edge of its box, allowed "
+                   f"({bTp:.2e}, {bTm:.2e}) = {ratio:.3g} x; relative flux mismatch energy {r1:.3e}, "
+                   f"momentum {r2:.3e} (vw={vw:.6g}, hybr flag={getattr(hyd, 'success', None)})",
                    vw=vw, matching=[vp, vm, Tp, Tm], newton=[dTp, dTm], cond=cond)
 
     # ---- boundary constants -----------------------------------------------------------------------
@@ -289,14 +303,17 @@ def check_case(case) -> Verdict:
         if Tpb != Tp or Tmb != Tm:
             if abs(Tpb - Tp) > 1e-12 * Tp or abs(Tmb - Tm) > 1e-12 * Tm:
                 v.fail("c-plus", cls, f"findHydroBoundaries temperatures ({Tpb!r},{Tmb!r}) differ from findMatching ({Tp!r},{Tm!r})")
-        if abs(c1 - c1p) > 1e-11 * abs(c1p) or abs(c2 - c2p) > 1e-11 * (abs(pp) + abs(c2p - pp)):
+        sc2 = wp * (1.0 + R.g2(vp) * vp * vp) + abs(pp)  # p may be a small difference of O(w) terms
+        if abs(c1 - c1p) > 1e-12 * abs(c1p) or abs(c2 - c2p) > 1e-12 * sc2:
             v.fail("c-plus", cls,
                    f"c1,c2 = ({c1:.12g},{c2:.12g}) but -w+g+^2v+ = {c1p:.12g}, p+ + w+g+^2v+^2 = {c2p:.12g} (vw={vw:.6g})",
                    c=[c1, c2], expected=[c1p, c2p])
         v.checked("vmid")
         if abs(vmid + 0.5 * (vp + vm)) > 1e-15:
             v.fail("vmid", cls, f"velocityMid={vmid!r}, expected {-0.5 * (vp + vm)!r}")
-        # minus side, forward image of the backward-error box
+        # minus side, forward image of the backward-error box (a consequence of `flux`: skipped if that failed)
+        if flux_failed:
+            return v
         v.checked("c-minus")
         wm, pm = eos.wb(Tm), eos.pb(Tm)
         c1m, c2m = -wm * R.g2(vm) * vm, pm + wm * R.g2(vm) * vm * vm
@@ -316,7 +333,7 @@ def check_case(case) -> Verdict:
             b1 = abs(eos.dws(Tp) * gp) * bTp + abs(eos.dwb(Tm) * gm) * bTm
             b2 = abs(eos.dws(Tp) * gp * vp + eos.dps(Tp)) * bTp + abs(eos.dwb(Tm) * gm * vm + eos.dpb(Tm)) * bTm
         b1 += 1e-12 * abs(c1p)
-        b2 += 1e-12 * (abs(pp) + abs(c2p - pp))
+        b2 += 1e-12 * sc2
         v.info["cminus_ratio"] = max(abs(c1 - c1m) / b1, abs(c2 - c2m) / b2) if b1 > 0 and b2 > 0 else None
         if not (abs(c1 - c1m) <= b1 and abs(c2 - c2m) <= b2):
             v.fail("c-minus", cls,
@@ -327,6 +344,8 @@ def check_case(case) -> Verdict:
         v.label("boundaries:none-or-zero")
 
     # ---- exact rather than approximate: independent reference matcher --------------------------
+    if flux_failed:
+        return v
     try:
         if branch == "detonation":
             ref = R.detonation(eos, Tn, vw)
@@ -338,7 +357,7 @@ def check_case(case) -> Verdict:
     if ref is None or not ref.ok:
         why = why if ref is None else ref.reason
         v.label(f"ref:{why}")
-        if why in ("below-vmin", "above-vJ", "below-vJ", "no-junction"):
+        if why in R.NO_SOLUTION_REASONS:
             # the reference says there is no exact matching of this type: nothing to compare with;
             # the flux oracle above has already judged the returned tuple
             v.label("ref-says-no-solution")
@@ -351,7 +370,6 @@ def check_case(case) -> Verdict:
     if branch == "detonation":
         allow_Tm = box(rTm, rtol, atol)
         # v-: image of the T- window (slope of the junction relation measured on the reference)
-        r2_ = R.detonation(eos, Tn, vw)
         dv = 0.0
         try:
             esn, psn = eos.es(Tn), eos.ps(Tn)
@@ -364,15 +382,14 @@ def check_case(case) -> Verdict:
             dv = float("inf")
         allow = {"vp": 0.0, "vm": 1.5 * dv + 1e-13, "Tp": 0.0, "Tm": allow_Tm}
     else:
-        if ref.dvp_dTp is None or ref.dTn_dTp is None or not (abs(ref.dvp_dTp) > 0 and abs(ref.dTn_dTp) > 0):
+        if ref.dTn_dvp is None or not abs(ref.dTn_dvp) > 0:
             v.label("ref:no-slopes")
             v.discarded("reference:no-slopes")
             return v
-        dTp_allow = (K * (atol + rtol * rvp) / abs(ref.dvp_dTp) + K * rtol * Tn / abs(ref.dTn_dTp)
-                     + box(rTp, rtol, atol))
-        allow = {"vp": abs(ref.dvp_dTp) * dTp_allow + 1e-14,
-                 "Tp": dTp_allow,
-                 "Tm": abs(ref.dTm_dTp) * dTp_allow + box(rTm, rtol, atol)}
+        dvp_allow = K * (atol + rtol * rvp) + K * rtol * Tn / abs(ref.dTn_dvp)
+        allow = {"vp": dvp_allow + 1e-14,
+                 "Tp": abs(ref.dTp_dvp) * dvp_allow + box(rTp, rtol, atol),
+                 "Tm": abs(ref.dTm_dvp) * dvp_allow + box(rTm, rtol, atol)}
         if branch == "deflagration":
             allow["vm"] = 0.0
         else:  # v- = c_b(T-): image of the T- allowance
